@@ -819,7 +819,7 @@ func (r *Ring) Exec(t []string) string {
 	case "crash":
 		r.Crash(u(1))
 		return "ok"
-	case "lookup":
+	case "lookup", "lookupq": // lookupq: issued by a harness only after the repair rounds reached a fixpoint
 		return withTimeout(opTimeout, func() string {
 			v, err := r.Wrap(u(1)).FindSuccessor(u(2))
 			if err != nil {
